@@ -12,4 +12,5 @@ let () =
   | [| _; "ledger" |] -> Ledger_driver.run ()
   | [| _; "pis" |] -> Pis_driver.run ()
   | [| _; "path" |] -> Path_driver.run ()
+  | [| _; "control" |] -> Control_driver.run ()
   | _ -> prerr_endline "usage: ompl_model <heap|...>"; exit 2
